@@ -211,7 +211,7 @@ class FQuot(SymFloat):
 
                 p = E.cur()
                 if bool(n >= 0):
-                    r = SymInt.mk(n.t, 0, n.hi) // d
+                    r = n.refine(0, n.hi) // d
                 else:
                     # n < 0: an IEEE quotient of a negative by a positive is negative and, by
                     # monotonicity of rounding, lies in [n, 0): floor is a negative integer >= n.
